@@ -22,6 +22,7 @@ RULE = (
     "the abstract machine from stack pointers of every alignment class mod 16 with a body that trashes all "
     "registers, the flags and everything below its stack pointer. Distinct by (ABI, constraints, leaf); "
     "non-trivial when the prologue is non-empty"
+    "; leaf determination also for code that belongs to no function behind a calling function, and for a block shared by a leaf and a calling function (recorded finding)"
 )
 ASSUMPTIONS = [
     "text -> abstract instruction: parsed by the harness from the generator's own snippets (unknown text is a disagreement, never silently skipped); LLVM's encoding of those mnemonics is not modelled",
